@@ -680,6 +680,11 @@ func faultShapes() []compShape {
 			{"allOf-after-same-ref-twice", `{"allOf":[` + obj + `,` + obj + `,` + b + `]}`},
 			{"allOf-first", `{"allOf":[` + b + `,` + obj + `]}`},
 			{"allOf-in-anyOf", `{"anyOf":[` + obj + `,{"allOf":[` + obj + `,` + b + `]}]}`},
+			// members that are all primitive or type-less, one of them wrapping a composition
+			{"anyOf-primitive-and-wrapped-allOf", `{"anyOf":[{"type":"string"},{"allOf":[` + obj + `,` + b + `]}]}`},
+			{"anyOf-wrapped-anyOf-and-primitive", `{"anyOf":[{"anyOf":[` + obj + `,` + b + `]},{"type":"integer"}]}`},
+			{"anyOf-null-and-wrapped-allOf", `{"anyOf":[{"type":"null"},{"description":"wrapped","allOf":[` + b + `]}]}`},
+			{"allOf-primitive-and-wrapped-anyOf", `{"allOf":[{"type":"string"},{"anyOf":[` + obj + `,` + b + `]}]}`},
 		}
 		for _, l := range layouts {
 			positions := []struct{ name, text string }{
